@@ -9,7 +9,7 @@ REPO="$1"; SCRATCH="$2"; PROP="$3"; TIER="${4:-quick}"
 DIR="$(cd "$(dirname "$0")/.." && pwd)"
 mkdir -p "$SCRATCH/sim" "$SCRATCH/verif" "$SCRATCH/target"
 rsync -a --delete --exclude target "$DIR/sim/" "$SCRATCH/sim/"
-sed -i "s#mathcat = { path = \"/repo\" }#mathcat = { path = \"$REPO\" }#" "$SCRATCH/sim/Cargo.toml"
+sed -i "s#mathcat = { path = \"/repo\"#mathcat = { path = \"$REPO\"#" "$SCRATCH/sim/Cargo.toml"
 sed -i "s#target-dir = \"/verif/target\"#target-dir = \"$SCRATCH/target\"#" "$SCRATCH/sim/.cargo/config.toml"
 cp "$DIR/known_findings.json" "$SCRATCH/verif/"
 cd "$SCRATCH/sim" || exit 2
